@@ -34,6 +34,9 @@ type c19Scenario struct {
 	Cfg      aofCfg   `json:"cfg"`
 	Topo     []string `json:"topo"`     // topology steps, applied in order when the explorer says so
 	SameNode bool     `json:"same_node"` // transactional mode: every key and the checkpoint live on node 0
+	Init     []string `json:"init,omitempty"`  // topology steps already applied when the replay starts
+	Sleep    bool     `json:"sleep,omitempty"` // "one second passes" is an explorer action (in-run retry sleeps)
+	Defer    bool     `json:"defer,omitempty"` // default order: a request passed over once waits behind newer requests, items and sleeps
 }
 
 // keys: two keys in slot of {t} (node 0), one key on node 1, one more slot on node 0
@@ -164,7 +167,19 @@ func c19Exec(t *testing.T, scn c19Scenario, ch *mc.Chooser) (rec c19Rec, machine
 				cl.SetOwner(slot, 2)
 			case "Ow":
 				cl.SetOwner(c19SlotOf(2), 2)
+			case "Mw":
+				cl.SetMigrating(c19SlotOf(2), 2)
+			case "K2":
+				cl.Nodes[2].DropParked()
+				cl.Nodes[2].KillConns()
+			case "K1":
+				// transient failure of node 1: its connections are lost together with what was in flight
+				cl.Nodes[1].DropParked()
+				cl.Nodes[1].KillConns()
 			}
+		}
+		for _, st := range scn.Init {
+			applyTopo(st)
 		}
 		startOffset := aofS0
 		for runNo := 0; runNo < 3; runNo++ {
@@ -221,6 +236,8 @@ func c19Exec(t *testing.T, scn c19Scenario, ch *mc.Chooser) (rec c19Rec, machine
 			poll()
 			idle := 0
 			flushed := 0
+			sleeps := 0
+			deferred := map[parked]bool{}
 			for step := 0; step < 400 && !ended; step++ {
 				rec.Steps++
 				pk := listParked()
@@ -229,11 +246,39 @@ func c19Exec(t *testing.T, scn c19Scenario, ch *mc.Chooser) (rec c19Rec, machine
 					p    parked
 				}
 				var menu []act
-				for _, p := range pk {
-					menu = append(menu, act{"req", p})
+				for p := range deferred {
+					still := false
+					for _, q := range pk {
+						if q == p {
+							still = true
+						}
+					}
+					if !still {
+						delete(deferred, p)
+					}
+				}
+				for i := len(pk) - 1; i >= 0; i-- {
+					if scn.Defer && !deferred[pk[i]] {
+						menu = append(menu, act{"req", pk[i]}) // highest node first
+					}
+				}
+				if !scn.Defer {
+					for _, p := range pk {
+						menu = append(menu, act{"req", p})
+					}
 				}
 				if pos < len(items) {
 					menu = append(menu, act{kind: "item"})
+				}
+				if scn.Sleep && len(pk) > 0 && sleeps < 3 {
+					menu = append(menu, act{kind: "sleep"})
+				}
+				if scn.Defer {
+					for _, p := range pk {
+						if deferred[p] {
+							menu = append(menu, act{"req", p})
+						}
+					}
 				}
 				if topo < len(scn.Topo) {
 					menu = append(menu, act{kind: "topo"})
@@ -274,6 +319,13 @@ func c19Exec(t *testing.T, scn c19Scenario, ch *mc.Chooser) (rec c19Rec, machine
 					}
 				}
 				a := menu[ch.ChooseCost(fmt.Sprintf("r%d.s%d", runNo, step), costs)]
+				if scn.Defer {
+					for _, m := range menu {
+						if m.kind == "req" && !(a.kind == "req" && a.p == m.p) {
+							deferred[m.p] = true
+						}
+					}
+				}
 				switch a.kind {
 				case "req":
 					cl.Nodes[a.p.node].Step(a.p.conn, 1)
@@ -283,6 +335,9 @@ func c19Exec(t *testing.T, scn c19Scenario, ch *mc.Chooser) (rec c19Rec, machine
 				case "topo":
 					applyTopo(scn.Topo[topo])
 					topo++
+				case "sleep":
+					sleeps++
+					time.Sleep(1100 * time.Millisecond)
 				}
 				synctest.Wait()
 				poll()
@@ -298,7 +353,9 @@ func c19Exec(t *testing.T, scn c19Scenario, ch *mc.Chooser) (rec c19Rec, machine
 				rec.Healthy = true
 				rec.Log = cl.GlobalLog()
 			}
-			// stop this run: whatever is parked drains, context cancelled, source closed
+			// stop this run: whatever is parked drains, context cancelled, source closed. (A restart
+			// happens seconds later; the model assumes every request the old client instance had
+			// already written is processed and answered by then.)
 			setPark(false)
 			for _, n := range cl.Nodes {
 				n.Unpark()
@@ -325,6 +382,18 @@ func c19Exec(t *testing.T, scn c19Scenario, ch *mc.Chooser) (rec c19Rec, machine
 				break
 			}
 		}
+		// final teardown: everything still parked drains, every connection ends
+		setPark(false)
+		for _, n := range cl.Nodes {
+			n.Unpark()
+		}
+		synctest.Wait()
+		time.Sleep(5 * time.Second)
+		synctest.Wait()
+		for _, n := range cl.Nodes {
+			n.KillConns()
+		}
+		synctest.Wait()
 		if rec.Log == nil {
 			rec.Log = cl.GlobalLog()
 		}
@@ -455,6 +524,16 @@ func runC19(t *testing.T, rep *mc.Reporter) {
 	budget := &mc.Budget{Deadline: mc.DeadlineFromEnv()}
 	exec := func(scn c19Scenario, ch *mc.Chooser) mc.Result {
 		rec, mach := c19Exec(t, scn, ch)
+		if strings.HasPrefix(mach, "bubble: deadlock") && rec.Log != nil {
+			// goroutines of the code under test were still blocked after the final teardown.
+			// The recorded history is complete; if it breaks the property that is the verdict,
+			// otherwise the leak alone is not something this check can judge.
+			r := oracleC19(scn, &rec)
+			if r.Verdict != "violation" {
+				r = mc.Result{Verdict: "leak", Obs: r.Obs}
+			}
+			return r
+		}
 		if mach != "" {
 			return mc.Result{Verdict: "machinery", Clause: mach}
 		}
@@ -479,8 +558,8 @@ func runC19(t *testing.T, rep *mc.Reporter) {
 		{Txn: true, Resume: true, Pipeline: false, Count: 2, Bytes: 1 << 20, DbMode: "id"},
 		{Txn: true, Resume: true, Pipeline: true, Count: 2, Bytes: 1 << 20, DbMode: "id"},
 	}
-	streams := [][]int{{0, 0}, {0, 1, 0}, {0, 2, 0}, {0, 0, 0}, {0, 2, 0, 0}, {0, -1, 0}}
-	topos := [][]string{{"O"}, {"M", "F"}, {"M", "Ka", "F"}, {"M", "Ka"}, {"M"}}
+	streams := [][]int{{0, 0}, {0, 1, 0}, {0, 2, 0}, {0, 0, 0}, {0, 2, 0, 0}, {0, -1, 0}, {2, 0, 0}}
+	topos := [][]string{{"O"}, {"M", "F"}, {"M", "Ka", "F"}, {"M", "Ka"}, {"M"}, {"K1", "M"}}
 	bound := 2
 	if tier == "thorough" {
 		streams = append(streams, []int{0, 1, 0, 1}, []int{0, 2, 1, 0}, []int{0, 0, 2, 0, 0})
@@ -512,6 +591,29 @@ func runC19(t *testing.T, rep *mc.Reporter) {
 				scn := c19Scenario{Keys: keys, Cfg: cfg, Topo: tp, SameNode: cfg.Txn}
 				mc.RunScenario(rep, scn, bound, budget, func(ch *mc.Chooser) mc.Result { return exec(scn, ch) })
 			}
+		}
+	}
+	// family "retry": both slots already migrating when the replay starts (every first write of a
+	// key is answered ASK), the importing node loses its connections once (the redirected command
+	// fails: the batch is retried IN the run after a one-second sleep), "one second passes" is an
+	// explorer action. What one attempt left in flight can be processed after the retry's requests.
+	retryBound := 2
+	retryStreams := [][]int{{2, 0, 0, 1}, {0, 2, 0, 1}}
+	if tier == "thorough" {
+		retryBound = 3
+		retryStreams = append(retryStreams, []int{2, 0, 1, 0}, []int{2, 0, 0})
+	}
+	for _, st := range retryStreams {
+		for _, cfg := range []aofCfg{
+			{Txn: false, Resume: true, Pipeline: false, Count: 2, Bytes: 1 << 20, DbMode: "id"},
+			{Txn: false, Resume: true, Pipeline: true, Count: 2, Bytes: 1 << 20, DbMode: "id"},
+		} {
+			idx++
+			if idx%nshards != shard || budget.Expired() {
+				continue
+			}
+			scn := c19Scenario{Keys: st, Cfg: cfg, Init: []string{"M", "Mw"}, Topo: []string{"K2"}, Sleep: true, Defer: true}
+			mc.RunScenario(rep, scn, retryBound, budget, func(ch *mc.Chooser) mc.Result { return exec(scn, ch) })
 		}
 	}
 	if budget.Expired() {
